@@ -967,9 +967,12 @@ pub open spec fn dc_chain(from: int, to: int, r: Tree) -> Tree decreases to - fr
 }
 /// the ZBDD of the Boolean function "variable on level l" over n levels: don't-care chain above, node (l, 2^{l+1..n}, ∅)
 pub open spec fn var_tree(l: int, n: int) -> Tree { dc_chain(0, l, mk(l as u32, taut_tree(l + 1, n), ee())) }
-pub broadcast proof fn lemma_dc_chain_step(from: int, to: int, r: Tree)
-    requires 0 <= from < to <= u32::MAX,
-    ensures #[trigger] dc_chain(from, to, r) == mk(from as u32, dc_chain(from + 1, to, r), dc_chain(from + 1, to, r)),
+/// one unfolding step.  Both chain terms must already exist (two-term trigger): triggering on `dc_chain(from, ..)` alone creates
+/// `dc_chain(from + 1, ..)`, which triggers the lemma again - a matching loop that made z3 spin on FAILING proofs (seed C02-C02b-1
+/// went from "refuted in 50 s" to a timeout)
+pub broadcast proof fn lemma_dc_chain_step(from: int, from1: int, to: int, r: Tree)
+    requires 0 <= from < to <= u32::MAX, from1 == from + 1,
+    ensures #[trigger] dc_chain(from, to, r) == mk(from as u32, #[trigger] dc_chain(from1, to, r), dc_chain(from1, to, r)),
 {}
 pub broadcast proof fn lemma_dc_chain_base(to: int, r: Tree)
     ensures #[trigger] dc_chain(to, to, r) == r,
@@ -1494,6 +1497,9 @@ fn set_tautologies<M: Manager + HasZBDDCache<M::Edge>>(manager: &mut M, v: Vec<M
 /// `std::process::abort()` (out of memory while rebuilding the chain): does not return
 #[verifier::external_body]
 pub fn abort_oom() -> ! { std::process::abort() }
+/// the same call under the C14 reading "an operation never aborts the process": reaching it is a violation
+#[verifier::external_body]
+pub fn abort_is_a_violation() -> ! requires false { std::process::abort() }
 /// ASSUMED (precondition of every unit that reads the chain): the tautology chain is up to date w.r.t. the manager's
 /// current number of levels (`init_mut`/`post_reorder_mut` rebuild it after add_vars and reordering)
 spec fn zcache_ok<M: Manager + HasZBDDCache<M::Edge>>(m: &M) -> bool { m.zcache_spec().chain_ok(m.num_levels_spec()) }
@@ -1588,6 +1594,25 @@ pub open spec fn reduce_post(level: u32, hi: Tree, lo: Tree, n: int, r: Tree) ->
 //@fn file=crates/oxidd-rules-zbdd/src/lib.rs path=impl:ManagerEventSubscriber<M>~for~ZBDDCache<M::Edge>/fn:post_reorder_mut forinv=0 props=C02,C09 subst_text=std::process::abort()::=abort_oom();;manager.zbdd_cache_mut().tautologies~=~tautologies;::=set_tautologies(manager,~tautologies);
 //@header
 fn post_reorder_mut<M>(manager: &mut M)
+where M: Manager<Terminal = ZBDDTerminal> + HasZBDDCache<M::Edge>,
+//@spec
+    requires 0 <= old(manager).num_levels_spec() < u32::MAX,
+    ensures zcache_ok(final(manager)), final(manager).num_levels_spec() == old(manager).num_levels_spec(),
+//@loop
+    invariant
+        0 <= manager.num_levels_spec() < u32::MAX, iter__0.rem().len() <= manager.num_levels_spec(),
+        forall|i: int| 0 <= i < iter__0.rem().len() ==> #[trigger] iter__0.rem()[i] == iter__0.rem().len() - 1 - i,
+        tautologies@.len() == manager.num_levels_spec() - iter__0.rem().len() + 1,
+        forall|i: int| 0 <= i < tautologies@.len() ==> (#[trigger] tautologies@[i]).view() == taut_tree(manager.num_levels_spec() - i, manager.num_levels_spec()),
+    ensures
+        tautologies@.len() == manager.num_levels_spec() + 1,
+        forall|i: int| 0 <= i < tautologies@.len() ==> (#[trigger] tautologies@[i]).view() == taut_tree(manager.num_levels_spec() - i, manager.num_levels_spec()),
+    decreases iter__0.rem().len(),
+//@end
+// C14 ("never aborts"): the same body with the abort call as a proof obligation - REFUTED on the unchanged tree, listed as an open known finding
+//@fn file=crates/oxidd-rules-zbdd/src/lib.rs path=impl:ManagerEventSubscriber<M>~for~ZBDDCache<M::Edge>/fn:post_reorder_mut name=post_reorder_mut__noabort forinv=0 props=C14 subst_text=std::process::abort()::=abort_is_a_violation();;manager.zbdd_cache_mut().tautologies~=~tautologies;::=set_tautologies(manager,~tautologies);
+//@header
+fn post_reorder_mut__noabort<M>(manager: &mut M)
 where M: Manager<Terminal = ZBDDTerminal> + HasZBDDCache<M::Edge>,
 //@spec
     requires 0 <= old(manager).num_levels_spec() < u32::MAX,
